@@ -73,3 +73,24 @@ package dns
 //@   assert at "_, err = w.writer.Write(data)@2" packdata: same(data, callres("Pack", 0))
 //@   stored at "data, w.tsigRequestMAC, err = TsigGenerateWithProvider(m, w.tsigProvider, w.tsigRequestMAC, w.tsigTimersOnly)" mac: value == callres("TsigGenerateWithProvider", 1)
 //@   exit err: !called("Write") ==> ret0 != nil
+
+// the convenience wrappers: the message goes out on the connection just dialled (or given), the reply read from it
+// is the one returned, and (ExchangeConn) a reply with another ID is ErrId
+//@ func (*Client).Exchange [C12]
+//@   opt no-safety
+//@   requires c != nil
+//@   callsite "ExchangeWithConn" conn: arg1 == m && arg2 == callres("Dial", 0) && callres("Dial", 1) == nil
+//@ func (*Client).ExchangeWithConn [C12]
+//@   opt no-safety
+//@   requires c != nil
+//@   callsite "ExchangeWithConnContext" same: arg0 == c && arg2 == m && arg3 == conn
+//@ func (*Client).ExchangeContext [C12]
+//@   opt no-safety
+//@   requires c != nil
+//@   callsite "ExchangeWithConnContext" conn: arg0 == c && arg2 == m && arg3 == callres("DialContext", 0) && callres("DialContext", 1) == nil
+//@ func ExchangeConn [C12]
+//@   opt no-safety
+//@   requires m != nil
+//@   callsite "WriteMsg" query: arg1 == m && arg0.Conn == c
+//@   callsite "ReadMsg" after: callres("WriteMsg") == nil && arg0 == callarg("WriteMsg", 0)
+//@   exit id: err == nil ==> r != nil && r.Id == m.Id
